@@ -4,6 +4,70 @@ import { typeKey, h8 } from "./corpus.mjs";
 import { localise, localiseSource, makeValidateJudge, coreProgramText } from "./localise.mjs";
 import { toEjson, valueClass, show } from "./ejson.mjs";
 import { renderType } from "../gen/ast.mjs";
+import { Ref } from "../ref/member.mjs";
+
+// beff stores numeric literal types as i64 + 1e-9 fixed point (recorded: C01-lit-fixed-point)
+export function lossyNumber(x) {
+  if (typeof x !== "number" || !Number.isFinite(x)) return false;
+  const tr = Math.trunc(x);
+  return Math.abs(x) >= 2 ** 63 || tr + Math.trunc((x - tr) * 1e9) / 1e9 !== x;
+}
+
+// As-if attribution by re-execution: the same (type, value) pair with every numeric literal that the
+// fixed-point storage cannot hold re-spelled as a small integer (in the type, in the definitions it
+// refers to, and in the value). Returns null when the pair has no such literal.
+export function respellLossyLiterals(env, core, v) {
+  const map = new Map();
+  const safe = (x) => {
+    if (!map.has(x)) map.set(x, 990001 + map.size);
+    return map.get(x);
+  };
+  const mc = (t) => {
+    if (t == null || typeof t !== "object") return t;
+    if (Array.isArray(t)) return t.map(mc);
+    const pr = Object.getPrototypeOf(t);
+    if (pr !== Object.prototype && pr !== null) return t;
+    if (t.c === "lit" && lossyNumber(t.v)) return { ...t, v: safe(t.v) };
+    const o = {};
+    for (const k of Object.keys(t)) o[k] = mc(t[k]);
+    return o;
+  };
+  const core2 = mc(core);
+  const env2 = Object.create(env);
+  env2.defs = new Map([...env.defs].map(([k, d]) => [k, mc(d)]));
+  if (map.size === 0) return null;
+  const seen = new Map();
+  const mv = (x) => {
+    if (typeof x === "number") return map.has(x) ? map.get(x) : x;
+    if (x == null || typeof x !== "object") return x;
+    if (seen.has(x)) return seen.get(x);
+    if (Array.isArray(x)) {
+      const a = [];
+      seen.set(x, a);
+      for (let i = 0; i < x.length; i++) if (i in x) a[i] = mv(x[i]);
+      return a;
+    }
+    if (x instanceof Map) {
+      const m = new Map();
+      seen.set(x, m);
+      for (const [k, w] of x) m.set(mv(k), mv(w));
+      return m;
+    }
+    if (x instanceof Set) {
+      const m = new Set();
+      seen.set(x, m);
+      for (const w of x) m.add(mv(w));
+      return m;
+    }
+    const pr = Object.getPrototypeOf(x);
+    if (pr !== Object.prototype && pr !== null) return x;
+    const o = pr === null ? Object.create(null) : {};
+    seen.set(x, o);
+    for (const k of Object.keys(x)) Object.defineProperty(o, k, { value: mv(x[k]), enumerable: true, writable: true, configurable: true });
+    return o;
+  };
+  return { env: env2, core: core2, value: mv(v), literals: [...map.keys()] };
+}
 
 export function implOf(parser, v, options) {
   try {
@@ -31,6 +95,14 @@ export async function report(ctx, item, parserName, core, v, impl, ref, origin, 
           locCache.set(ck, { skip: true });
           ctx.inconclusive("default-mode-disagreement-left-to-C01");
           return;
+        }
+        // a numeric literal the fixed-point storage cannot hold (C01-lit-fixed-point) may show under strict
+        // mode only - when another union member covers the value structurally in default mode. Decided by
+        // re-execution: the same pair with those literals re-spelled as small integers.
+        const rs = respellLossyLiterals(env, loc.core, loc.value);
+        if (rs) {
+          const j2 = await makeValidateJudge(rs.env, ctx.compiler, new Ref(rs.env), options)(rs.core, rs.value);
+          if (j2 && j2.ref !== "U" && j2.impl === j2.ref) loc.signature = `${impl[0]}/${ref}|cause:number-literal-not-representable-in-fixed-point|agrees-when-respelled`;
         }
       }
       hit = { signature: loc.signature, text: coreProgramText(env, loc.core), value: loc.value, detail: `localised to ${coreProgramText(env, loc.core).trim().split("\n").pop()} on ${show(loc.value)}` };
